@@ -183,6 +183,8 @@ class Impl(object):
                 t = lx.get_token()
             except ValueError:
                 return wire.enc_list(out) + '\tValueError'
+            except Exception as e:      # anything else the lexer raises is reported, never the harness's problem
+                return wire.enc_list(out) + '\t' + type(e).__name__
             if not t:
                 return wire.enc_list(out) + '\teof'
             out.append(t)
@@ -202,6 +204,8 @@ class Impl(object):
             r = codecs.getdecoder('unicode_escape')(b)[0]
         except ValueError as e:
             return 'ValueError\t' + classify(str(e))
+        except Exception as e:
+            return 'crash\t' + type(e).__name__
         return 'ok\t' + enc_cps(r)
 
 def effective(sc, network, channel):
@@ -631,8 +635,20 @@ def run(ctx):
         n['scoped'] = COUNTS_QUICK['scoped'] * 2      # every scope registers fresh channel children: cost grows quadratically
     corpus = load_corpus() + [dict(xs=f['witness']['xs'], writer='dqrepr') for f in verdict.load_findings(PROPERTY) if 'xs' in f.get('witness', {})] \
         + [dict(s=f['witness']['s']) for f in verdict.load_findings(PROPERTY) if 's' in f.get('witness', {})]
-    ex = explore(impl, rng.make('c13'), n, corpus)
-    cases = fill_model(ex) if build.driver_ok else ex.cases
+    try:
+        ex = explore(impl, rng.make('c13'), n, corpus)
+        cases = fill_model(ex) if build.driver_ok else ex.cases
+    except Exception as e:
+        # an exception that comes out of the implementation's own code while the harness drives it through a path
+        # it has no wrapper for is a failure of the implementation, reported with the traceback — not exit 2
+        import traceback
+        tb = traceback.extract_tb(e.__traceback__)
+        from vlib import REPO
+        if not (tb and os.path.realpath(tb[-1].filename).startswith(os.path.realpath(REPO))):
+            raise
+        cases = [Case(dict(op='drive', where='%s:%d %s' % (tb[-1].filename, tb[-1].lineno, tb[-1].name)),
+                      oracle_ok=False, kind='drive', tags=('drive',),
+                      oracle_msg='driving the implementation raised %s: %s\n%s' % (type(e).__name__, e, ''.join(traceback.format_tb(e.__traceback__)[-4:])))]
     def search(disagreements, broken):
         import random
         rr = random.Random('%d/c13-search' % ctx.seed)
